@@ -101,7 +101,18 @@ func singleDef(info *types.Info, body ast.Node, obj types.Object) ast.Expr {
 					}
 				}
 			}
+		case *ast.IncDecStmt:
+			if core.ObjOf(info, a.X) == obj {
+				n += 2 // modified in place: not a single definition
+			}
+		case *ast.UnaryExpr:
+			if a.Op == token.AND && core.ObjOf(info, a.X) == obj {
+				n += 2 // address taken: may be modified elsewhere
+			}
 		case *ast.RangeStmt:
+			if a.Key != nil && core.ObjOf(info, a.Key) == obj {
+				n += 2
+			}
 			if a.Value != nil && core.ObjOf(info, a.Value) == obj {
 				n++
 				rhs = a.X // element of
